@@ -1,6 +1,8 @@
 import GridVerif.Props.C12
 import GridVerif.Props.C12.Listing
 import GridVerif.Props.C12.Logic
+import GridVerif.Props.C12.Full
+import GridVerif.Props.C12.FullDemo
 
 #print axioms GridVerif.C12.bisect_left_least_index
 #print axioms GridVerif.C12.resolve_spec
@@ -30,3 +32,13 @@ import GridVerif.Props.C12.Logic
 #print axioms GridVerif.C12.gen_init_degree_request
 #print axioms GridVerif.C12.gen_init_size_request
 #print axioms GridVerif.C12.gen_cache_key_sound
+#print axioms GridVerif.C12.gen_warnings_body_eq
+#print axioms GridVerif.C12.gen_warnings_of_ok
+#print axioms GridVerif.C12.gen_loader_data
+#print axioms GridVerif.C12.gen_loader_data_shape
+#print axioms GridVerif.C12.gen_initFull_unfold
+#print axioms GridVerif.C12.gen_init_full
+#print axioms GridVerif.C12.gen_init_independent_of_cache
+#print axioms GridVerif.C12.gen_init_full_reject
+#print axioms GridVerif.C12.gen_init_full_unknown_method
+#print axioms GridVerif.C12.demoLoad_ok
